@@ -696,8 +696,11 @@ func chainScenario(tr *vh.Trace, rnd *rand.Rand, n int, rounds int, style nastyk
 			s.cur[r] = id
 		}
 	}
+	// sometimes the lowest ranks are left to the new layers: the merge then starts with a slot or
+	// two of a layer (a tiny merge buffer) before the base's chunks are passed through
+	low := []int{0, 0, 2, 6}[rnd.Intn(4)]
 	var ranks []int
-	for r := 1; r <= s.K; r++ {
+	for r := 1 + low; r <= s.K; r++ {
 		if rnd.Float64() < dens {
 			ranks = append(ranks, r)
 		}
@@ -720,6 +723,11 @@ func chainScenario(tr *vh.Trace, rnd *rand.Rand, n int, rounds int, style nastyk
 				rk = pickRanks(rnd, s.K, 5+rnd.Intn(12), false)
 			default:
 				rk = pickRanks(rnd, s.K, 1+rnd.Intn(3), false) // a transaction touching 1..3 keys
+			}
+			if low > 0 && rnd.Intn(2) == 0 {
+				rk = append([]int{1 + rnd.Intn(low)}, rk...)
+				sort.Ints(rk)
+				rk = slicesCompact(rk)
 			}
 			b := s.newBuf()
 			s.fill(b, s.genOps(rk, pdel, 5), rnd.Intn(4))
@@ -747,15 +755,19 @@ func chainScenario(tr *vh.Trace, rnd *rand.Rand, n int, rounds int, style nastyk
 // from small (<= goal/2 of the merge), just above goal/2 and full. The other inputs hold single
 // keys (or short runs) between A's keys, and a few updates / deletes of A's own keys, so that
 // most of A's chunks are passed through and some are output slot by slot in between. Two or
-// three more merges with sparse layers follow on the result.
-func shapedScenario(tr *vh.Trace, rnd *rand.Rand, n int, nother int, style nastykeys.Style) {
+// three more merges with sparse layers follow on the result. uniform: short inputs (3..6 chunks)
+// where tiny / boundary / random / full chunk sizes are equally likely, so that all short
+// sequences of size classes occur, including at the start of the merge (the first chunk is
+// always output slot by slot and determines the capacity of the merge buffer).
+func shapedScenario(tr *vh.Trace, rnd *rand.Rand, n int, nother int, style nastykeys.Style, uniform bool) {
 	psp := []float64{0.02, 0.05, 0.12}[rnd.Intn(3)] // share of ranks reserved for the other inputs
 	K := int(float64(n)/(1-psp)) + 6
 	keys := nastykeys.Universe(rnd, K, style)
 	s := newScen(tr, rnd, keys, fmt.Sprintf("shaped/%s/n%d/others%d", style, n, nother))
 	var aRanks, oRanks []int
+	low := []int{0, 0, 1, 3}[rnd.Intn(4)] // the merge starts with slots of another input
 	for r := 1; r <= s.K; r++ {
-		if rnd.Float64() < psp {
+		if rnd.Float64() < psp || r <= low {
 			oRanks = append(oRanks, r)
 			if rnd.Intn(2) == 0 { // the reserved key exists in the base state: update / delete
 				id, _ := s.newOff()
@@ -778,7 +790,11 @@ func shapedScenario(tr *vh.Trace, rnd *rand.Rand, n int, nother int, style nasty
 	for at := 0; at < len(aRanks); at += group {
 		end := min(at+group, len(aRanks))
 		var keep int
-		switch rnd.Intn(6) {
+		x := rnd.Intn(6)
+		if uniform {
+			x = rnd.Intn(4) // few chunks: every size class equally likely, also for the first chunk
+		}
+		switch x {
 		case 0:
 			keep = 1 + rnd.Intn(3)
 		case 1:
@@ -935,12 +951,16 @@ func main() {
 		reset()
 		n := 50 + rnd.Intn(190)
 		switch {
-		case i%4 == 3:
+		case i%8 == 4:
 			n = 256 + rnd.Intn(300)
-		case vh.Thorough() && i%16 == 9:
+		case vh.Thorough() && i%16 == 10:
 			n = 1024 + rnd.Intn(300)
 		}
-		shapedScenario(tr, rnd, n, 1+rnd.Intn(3), plain[rnd.Intn(3)])
+		if i%2 == 1 {
+			shapedScenario(tr, rnd, 50+rnd.Intn(70), 1+rnd.Intn(2), plain[rnd.Intn(3)], true)
+			continue
+		}
+		shapedScenario(tr, rnd, n, 1+rnd.Intn(3), plain[rnd.Intn(3)], false)
 	}
 	kv := []any{"events", tr.N}
 	names := make([]string, 0, len(stats))
